@@ -63,3 +63,42 @@ pub fn drop_value_iter(v: Value) {
 		}
 	}
 }
+
+/// Same content as `from_rval`, but every object is filled from the back with the front mutators
+/// (`push_front` / `insert_front`), every string and key lives on the heap whatever its length
+/// (built from a `std::string::String` with spare capacity, or cut back from a longer text) and
+/// arrays carry spare capacity: the value is equal to `from_rval(v)`, only its storage differs.
+pub fn from_rval_storage(v: &RVal) -> Value {
+	/// `s` in a std string that owns more than it needs, or cut back from a longer text
+	fn roomy(s: &str, cut: bool) -> std::string::String {
+		let mut t = std::string::String::with_capacity(s.len() + 48);
+		t.push_str(s);
+		if cut {
+			t.push_str("########################################");
+		}
+		t
+	}
+	match v {
+		RVal::Str(s) => {
+			let cut = s.len() % 2 == 0;
+			let mut t = json_syntax::String::from(roomy(s, cut));
+			t.truncate(s.len());
+			Value::String(t)
+		}
+		RVal::Arr(a) => {
+			let mut items = Vec::with_capacity(a.len() + 9);
+			items.extend(a.iter().map(from_rval_storage));
+			Value::Array(items)
+		}
+		RVal::Obj(o) => {
+			let mut obj = Object::new();
+			for (i, (k, v)) in o.iter().enumerate().rev() {
+				let mut key = json_syntax::object::Key::from(roomy(k, i % 2 == 1));
+				key.truncate(k.len());
+				obj.push_front(key, from_rval_storage(v));
+			}
+			Value::Object(obj)
+		}
+		other => from_rval(other),
+	}
+}
